@@ -1,6 +1,11 @@
 package ircserver
 
-import "gopkg.in/sorcix/irc.v2"
+import (
+	"sort"
+
+	"github.com/robustirc/robustirc/internal/robust"
+	"gopkg.in/sorcix/irc.v2"
+)
 
 func init() {
 	Commands["server_QUIT"] = &ircCommand{
@@ -14,10 +19,18 @@ func (i *IRCServer) cmdServerQuit(s *Session, reply *Replyctx, msg *irc.Message)
 		i.deleteSessionLocked(s, reply.msgid)
 		// For services, we also need to delete all sessions that share the
 		// same .Id, but have a different .Reply.
-		for id, session := range i.sessions {
+		// The order of the resulting QUIT messages must not depend on map
+		// iteration order: all nodes must produce identical output.
+		ids := make([]robust.Id, 0, len(i.sessions))
+		for id := range i.sessions {
 			if id.Id != s.Id.Id || id.Reply == 0 {
 				continue
 			}
+			ids = append(ids, id)
+		}
+		sort.Slice(ids, func(a, b int) bool { return ids[a].Reply < ids[b].Reply })
+		for _, id := range ids {
+			session := i.sessions[id]
 			i.sendCommonChannels(session, reply, &irc.Message{
 				Prefix:  &session.ircPrefix,
 				Command: irc.QUIT,
